@@ -15,4 +15,4 @@ R=$(mktemp -d /tmp/scroot-XXXX); mkdir -p $R/evidence; cp /verif/known_findings.
  line="$C($TIER) exit=$rc $(grep -c '^VIOLATION' $R/log) violations; first: $(grep -m1 'key=' $R/log)"
  echo "$line"; [ "${SC_NOAPPEND:-0}" = 1 ] || echo "$line" >> $S/detection.txt
 }
-git -C /repo worktree remove --force $WT >/dev/null 2>&1; rm -rf $WT $R
+git -C /repo worktree remove --force $WT >/dev/null 2>&1; rm -rf $WT; if [ "${SC_KEEP:-0}" = 1 ]; then echo "kept $R"; else rm -rf $R; fi
